@@ -197,7 +197,7 @@ pub fn run(ctx: &Ctx) {
     let mut sess = Session::new(ctx);
     let mut rng = Rng::new(ctx.seed);
     if let Some(v) = replay_input(ctx) {
-        if crate::leaves::replay(&mut sess, &v) || crate::prules::replay(&mut sess, &v) || crate::rules2::replay(&mut sess, &v) {
+        if crate::leaves::replay(&mut sess, &v) || crate::prules::replay(&mut sess, &v) || crate::rules2::replay(&mut sess, &v) || crate::mrules::replay(&mut sess, &v) {
             sess.nontrivial("replay-a");
             sess.nontrivial("replay-b");
             sess.finish("replay of one recorded leaf / generic-rule input", false, json!({}));
@@ -230,6 +230,7 @@ pub fn run(ctx: &Ctx) {
     crate::leaves::run_into(&mut sess, ctx, &mut rng);
     crate::prules::run_into(&mut sess, ctx, &mut rng);
     crate::rules2::run_into(&mut sess, ctx, &mut rng);
+    crate::mrules::run_into(&mut sess, ctx, &mut rng);
     // ---- jobs --------------------------------------------------------------------------------
     let mut jobs: Vec<Job> = vec![];
     let mut push = |id: &str, text: String, k: usize, jobs: &mut Vec<Job>| {
@@ -348,7 +349,7 @@ pub fn run(ctx: &Ctx) {
         }
     }
     sess.finish(
-        &(crate::c01_pattern::RULE.to_string() + " || " + crate::leaves::RULE + " || " + crate::prules::RULE + " || " + crate::rules2::RULE + " || O: Document::new + LintGroup::lint (curated default / all rules on / a fixed half of the rules; 4 dialects; long-lived per-thread groups) on every language id of the server's table (also wrapped in CollapseIdentifiers / IsolateEnglish), for every prefix (every character for texts ≤200 chars, token boundaries ±1 beyond; some with trailing whitespace) of: the corpus of past crash witnesses, rule-test sentences embedded in language-appropriate syntax and mutated, random code points, and the repo's fixtures. A panic or a watchdog timeout is a failure; the class is the panic's source location. Growth: parse+lint time at n,2n,4n,8n for 10 pathological families; exponent > 3.2 fails. Non-trivial = a unit with > 20 prefixes; distinct by (front-end, text)."),
+        &(crate::c01_pattern::RULE.to_string() + " || " + crate::leaves::RULE + " || " + crate::prules::RULE + " || " + crate::rules2::RULE + " || " + crate::mrules::RULE + " || O: Document::new + LintGroup::lint (curated default / all rules on / a fixed half of the rules; 4 dialects; long-lived per-thread groups) on every language id of the server's table (also wrapped in CollapseIdentifiers / IsolateEnglish), for every prefix (every character for texts ≤200 chars, token boundaries ±1 beyond; some with trailing whitespace) of: the corpus of past crash witnesses, rule-test sentences embedded in language-appropriate syntax and mutated, random code points, and the repo's fixtures. A panic or a watchdog timeout is a failure; the class is the panic's source location. Growth: parse+lint time at n,2n,4n,8n for 10 pathological families; exponent > 3.2 fails. Non-trivial = a unit with > 20 prefixes; distinct by (front-end, text)."),
         false,
         json!({"growth": growth_rows, "slowest_unit_ms": slowest as u64, "language_ids": ids}),
     );
